@@ -206,8 +206,9 @@ def cog_rules(F, R, tier):
     nmax = 8 if tier == 'quick' else 24
     good = True
     why = ''
-    for n in range(1, nmax + 1):
-        st = {'q_vals': [Form({'q%d' % j: 1.0}) for j in range(n)], 'window_len': n}
+    configs = [(n, n) for n in range(1, nmax + 1)] + [(n - 1, n + 2) for n in range(1, min(nmax, 8) + 1)]
+    for (entry_len, N) in configs:
+        st = {'q_vals': [Form({'q%d' % j: 1.0}) for j in range(entry_len)], 'window_len': N}
         ev = LinEval(st, m.up_vg.loops)
         try:
             num = ev.ev(num_t)
@@ -215,7 +216,9 @@ def cog_rules(F, R, tier):
         except NonConst:
             good, why = False, 'sums are not over a window of known fill'
             break
-        atoms = ['q%d' % j for j in range(1, n)] + ['u']  # oldest .. newest after pop/push
+        full = entry_len >= N
+        atoms = (['q%d' % j for j in range(1, entry_len)] if full else ['q%d' % j for j in range(entry_len)]) + ['u']  # oldest .. newest after (pop/)push
+        n = len(atoms)
         if not isinstance(num, Form) or not isinstance(den, Form):
             good, why = False, 'weighted sum is not linear in the window values'
             break
@@ -232,7 +235,28 @@ def cog_rules(F, R, tier):
         if set(num) - set(atoms) - {'1'} or set(den) - set(atoms) - {'1'}:
             good, why = False, 'n=%d: sums include values outside the window: %s' % (n, sorted((set(num) | set(den)) - set(atoms))[:3])
             break
-    R.ob('COG-W', 'CenterOfGravity', good and neg_num, 'weight of the k-th newest value is k (newest 1), the same values feed numerator and denominator (n = 1..%d)' % nmax if good and neg_num else (why or 'numerator is not negated'), v.file)
+    R.ob('COG-W', 'CenterOfGravity', good and neg_num, 'weight of the k-th newest value is k (newest 1), the same values feed numerator and denominator (full windows n = 1..%d and filling windows)' % nmax if good and neg_num else (why or 'numerator is not negated'), v.file)
+    # the constant term must use the number of values currently in the window
+    okn = True
+    for (entry_len, N) in configs[:6] + configs[-4:]:
+        st = {'q_vals': [Form({'q%d' % j: 1.0}) for j in range(entry_len)], 'window_len': N}
+        ev = LinEval(st, m.up_vg.loops)
+        n_now = entry_len if entry_len >= N else entry_len + 1
+        for x in subterms(out_t):
+            if x[0] == 'op' and x[1] == 'div' and x[2][1] == lit(2.0):
+                try:
+                    c = ev.ev(x[2][0])
+                    if isinstance(c, Form) and c.is_const() and abs(c.const() - (n_now + 1)) > 1e-9:
+                        okn = False
+                except NonConst:
+                    pass
+    R.ob('COG-N', 'CenterOfGravity', okn, 'the constant term uses the number of values currently in the window' if okn else 'the constant term (n+1)/2 does not use the current number of window values', v.file)
+    # (5) the output is recomputed on every delivered value (no data-dependent hold)
+    from .e_window import flow
+    fl = flow(F, v)
+    holds = [h for h in fl.holds('out') if h[0] == 'data']
+    R.ob('COG-H', 'CenterOfGravity', not holds, 'the output is recomputed on every delivered value' if not holds else
+         'the previous output is kept under a data-dependent condition %s' % holds[0][1][:2], v.file)
     # offset (n+1)/2 and guard
     okc = False
     for x in subterms(out_t):
